@@ -177,12 +177,12 @@ static void roundtrip(int fid, int nextmode, uint32_t param, uint64_t seed, cons
 	if (!run_random(&c, data, n, &seed, &enc) && !why) why = "sliced-encode-not-finished";
 	coder_end(&c);
 	if (!why && (one.n != n || enc.n != n)) why = "size-changed";
-	if (!why && memcmp(one.p, enc.p, n)) why = "slicing-dependent";
+	if (!why && n && memcmp(one.p, enc.p, n)) why = "slicing-dependent";
 	// sliced decode
 	coder_init(&c, fid, false, 1, param);
 	if (!run_random(&c, enc.p, enc.n, &seed, &dec) && !why) why = "sliced-decode-not-finished";
 	coder_end(&c);
-	if (!why && (dec.n != n || memcmp(dec.p, data, n))) why = "roundtrip-differs";
+	if (!why && (dec.n != n || (n && memcmp(dec.p, data, n)))) why = "roundtrip-differs";
 	if (!why) printf("1\n");
 	else { printf("0 %s enc=", why); hp_put_hex(enc.p, enc.n); printf(" dec="); hp_put_hex(dec.p, dec.n); printf("\n"); }
 	free(one.p); free(enc.p); free(dec.p);
